@@ -87,8 +87,7 @@ def run(model, R):
     R.check(ok, 'MINIMIZE', f, f.node, 'minimal(): labels of the first generated set', 'self.lattice._context._minimal(self._extent, self._intent).members()',
             src(r[0])[:140] if r else '')
     f = model.func('lattice_members.Infimum.minimal')
-    r = [src(n.value) for n in walk(f.body) if isinstance(n, ast.Return)]
-    R.check(r == ['self._intent.members()'], 'MINIMIZE', f, f.node, 'Infimum.minimal(): the full intent', 'self._intent.members()', str(r))
+    R.returns(f, 'self._intent.members()', 'MINIMIZE', 'Infimum.minimal(): the full intent')
     # Infimum really overrides Concept.minimal
     inf = model.cls('lattice_members.Infimum')
     R.check(any(b.name == 'Concept' for b in inf.bases), 'MINIMIZE', 'lattice_members.Infimum', inf.node, 'Infimum derives from Concept', 'class Infimum(Concept)')
